@@ -65,7 +65,7 @@ Proof. destruct o; simpl; intros; try discriminate; auto. Qed.
 Lemma starts_hd45 k : item_ok k -> starts_operand k = true -> hdz (text k) = 45 -> k = IOp UNeg \/ k = IOp UPreDec.
 Proof.
   intros Hk Hs H45. destruct k as [s|s|b f|o|s| |]; try discriminate.
-  - destruct Hk as [[_ [Hs' _]] _]. simpl in H45. rewrite H45 in Hs'. discriminate.
+  - destruct Hk as [Hw _]. destruct (word_shape_hd s Hw) as [_ Hs']. simpl in H45. rewrite H45 in Hs'. discriminate.
   - destruct (num_last s Hk) as [_ Hd]. simpl in H45. rewrite H45 in Hd. discriminate.
   - simpl in Hs. destruct (op_kind o) eqn:Ek; try discriminate.
     destruct (hd_neg_ops o Ek H45); subst; auto.
@@ -154,21 +154,23 @@ Proof.
   pose proof (need_holds mw prev st i r Hi Hr Hc) as N.
   rewrite <- (hdz_rest mw _ _ r Hr) in N. fold R in N.
   destruct i as [s|s|b f|o|s| |].
-  - destruct N as [N|[X _]]; [|discriminate]. simpl in N. apply negb_true_iff in N.
-    apply lex1_id; [destruct Hi; assumption | apply nohead_of_hdz; exact N].
+  - destruct N as [N|[X _]]; [|discriminate]. simpl in N. apply andb_true_iff in N as [N N92].
+    apply negb_true_iff in N. apply negb_true_iff in N92.
+    apply lex1_word; [destruct Hi; assumption | apply nohead_of_hdz; exact N | apply nohead_of_hdz; exact N92].
   - destruct N as [N|[X _]]; [|discriminate]. simpl in N. apply andb_true_iff in N as [N1 N2].
     apply negb_true_iff in N1. apply negb_true_iff in N2.
     apply lex1_num; [exact Hi | apply nohead_of_hdz; exact N1 | apply nohead_of_hdz; exact N2].
-  - destruct N as [N|[X _]]; [|discriminate]. simpl in N. apply negb_true_iff in N.
+  - destruct N as [N|[X _]]; [|discriminate]. simpl in N. apply andb_true_iff in N as [N _]. apply negb_true_iff in N.
     change (text (IRe b f) ++ R) with (47 :: (b ++ 47 :: f) ++ R). rewrite <- app_assoc. change ((47 :: f) ++ R) with (47 :: f ++ R).
     apply lex1_re; [eapply goal_regex; exact Hc | exact Hi | apply nohead_of_hdz; exact N].
   - destruct (op_facts o) as (Fh & Fn & Fk). simpl text. unfold last_tok. simpl toks_of.
     destruct (op_is_keyword o) eqn:Ew.
-    + destruct N as [N|[X _]]; [|inversion X; subst; discriminate]. simpl in N. rewrite Ew in N. apply negb_true_iff in N.
+    + destruct N as [N|[X _]]; [|inversion X; subst; discriminate]. simpl in N. rewrite Ew in N.
+      apply andb_true_iff in N as [N N92]. apply negb_true_iff in N. apply negb_true_iff in N92.
       destruct (Fk eq_refl) as (_ & Hs & Hall & _). simpl last.
-      apply lex1_id; [|apply nohead_of_hdz; exact N].
+      apply lex1_id; [|apply nohead_of_hdz; exact N | apply nohead_of_hdz; exact N92].
       split; [apply op_text_nonempty | split; assumption].
-    + destruct (Fn eq_refl) as (_ & H46 & _ & Hpu & Hq). simpl last.
+    + destruct (Fn eq_refl) as (_ & H46 & _ & _ & Hpu & Hq). simpl last.
       destruct N as [N|(X & Ep & r' & Er & Epre)].
       * simpl in N. rewrite Ew in N. apply negb_true_iff in N.
         apply punct_follow_char; try assumption.
@@ -198,7 +200,8 @@ Proof.
         -- simpl. discriminate.
         -- discriminate.
   - (* IDot *)
-    destruct N as [N|[X _]]; [|discriminate]. simpl in N. apply negb_true_iff in N.
+    destruct N as [N|[X _]]; [|discriminate]. simpl in N. apply andb_true_iff in N as [N N92].
+    apply negb_true_iff in N. apply negb_true_iff in N92.
     destruct Hi as [Hs Hw]. pose proof Hs as (Hne & Hst & Hall).
     split.
     + change (46 :: s ++ R) with ([46] ++ (s ++ R)).
@@ -210,7 +213,7 @@ Proof.
       * rewrite hz_dot, Hh. simpl. apply orb_false_iff. split; [apply Z.eqb_neq; exact H46 | reflexivity].
       * simpl. discriminate.
       * intros _. rewrite Hh. exact Hd.
-    + apply lex1_id; [exact Hs | apply nohead_of_hdz; exact N].
+    + apply lex1_id; [exact Hs | apply nohead_of_hdz; exact N | apply nohead_of_hdz; exact N92].
   - destruct N as [N|[X _]]; [|discriminate]. simpl in N. apply negb_true_iff in N.
     apply punct_follow_char; try reflexivity; try exact N; simpl; discriminate.
   - destruct N as [N|[X _]]; [|discriminate]. simpl in N. apply negb_true_iff in N.
